@@ -562,9 +562,9 @@ func (fc *FnCtx) refBound(arr string, mem bool) {
 	}
 	fc.declared["refbound:"+arr] = true
 	if mem {
-		fc.assumeGlobal(fmt.Sprintf("(forall ((i!q Int) (j!q (_ BitVec 64))) (! (< (select (select %s i!q) j!q) ac0) :pattern ((select (select %s i!q) j!q))))", arr, arr))
+		fc.assumeGlobal(fmt.Sprintf("(forall ((i!q Int) (j!q (_ BitVec 64))) (! (=> (< i!q ac0) (< (select (select %s i!q) j!q) ac0)) :pattern ((select (select %s i!q) j!q))))", arr, arr))
 	} else {
-		fc.assumeGlobal(fmt.Sprintf("(forall ((i!q Int)) (! (< (select %s i!q) ac0) :pattern ((select %s i!q))))", arr, arr))
+		fc.assumeGlobal(fmt.Sprintf("(forall ((i!q Int)) (! (=> (< i!q ac0) (< (select %s i!q) ac0)) :pattern ((select %s i!q))))", arr, arr))
 	}
 }
 
@@ -701,7 +701,8 @@ func (fc *FnCtx) wfAc(v V, acTerm string) string {
 	case *types.Pointer, *types.Map, *types.Chan, *types.Signature:
 		return and(sx(">=", v.T[0], "0"), sx("<", v.T[0], st.ac))
 	case *types.Interface:
-		return and(sx(">=", v.T[0], "0"), implies(eq(v.T[0], "0"), eq(v.T[1], "0")))
+		return and(sx(">=", v.T[0], "0"), implies(eq(v.T[0], "0"), eq(v.T[1], "0")),
+			implies(sx("isptrtag", v.T[0]), and(sx(">=", v.T[1], "0"), sx("<", v.T[1], st.ac))))
 	case *types.Struct:
 		if fc.e.isOpaqueStruct(t) {
 			return "true"
@@ -828,7 +829,7 @@ func (fc *FnCtx) makeIface(v V, ifaceTy types.Type) V {
 	if isIface(v.Ty) {
 		return V{Ty: ifaceTy, T: v.T}
 	}
-	tag := fmt.Sprint(fc.e.tagOf(v.Ty))
+	tag := fc.tagTerm(v.Ty)
 	cs := fc.e.comps(v.Ty)
 	var id string
 	if isPointer(v.Ty) || isMap(v.Ty) {
@@ -986,4 +987,15 @@ func (fc *FnCtx) val(v ssa.Value) V {
 		return r
 	}
 	panic(fmt.Sprintf("value %s (%T) not yet defined in %s", v.Name(), v, fc.name))
+}
+
+// tagTerm: the dynamic-type tag of t. Pointer-typed (and map-typed) dynamic types are announced to the solver, so
+// that the payload id of such an interface value is known to be an allocation id.
+func (fc *FnCtx) tagTerm(t types.Type) string {
+	id := fmt.Sprint(fc.e.tagOf(t))
+	if (isPointer(t) || isMap(t)) && !fc.declared["ptrtag:"+id] {
+		fc.declared["ptrtag:"+id] = true
+		fc.assumeGlobal(sx("isptrtag", id))
+	}
+	return id
 }
